@@ -685,7 +685,7 @@ class Machine(object):
     if not ms:
       ev["outcome"] = "skip"
       return
-    x = ms[op.get("k", 0) % len(ms)]
+    x = ms[-1] if op.get("last") else ms[op.get("k", 0) % len(ms)]
     live["handle"] = self.handles.get(x["h"])
     live["state_before"] = state_digest(live["handle"].est)
     live["dist_probe"] = None
